@@ -10,6 +10,9 @@ Steps (all recorded in /verif/seeded/<id>[-suffix]/meta.json):
  3. the patch is applied to /repo (git apply), the listed checks are run, /repo is restored (git checkout -- .);
     for each check: detected (exit 1 + VIOLATION line) or missed.
 Scratch worktrees are removed afterwards.
+
+  --benign: the change is meant to preserve behaviour; results go to /verif/benign/<id>/ and every check is expected
+            to exit 0 without a VIOLATION line ("silent").
 """
 import json
 import os
@@ -35,6 +38,7 @@ def main():
     tier = "quick"
     name = ""
     skip_baseline = False
+    benign = "--benign" in sys.argv  # a behaviour-preserving change: the checks must stay silent
     for i, a in enumerate(sys.argv):
         if a == "--checks":
             checks = sys.argv[i + 1].split(",")
@@ -44,7 +48,7 @@ def main():
             name = "-" + sys.argv[i + 1]
         if a == "--skip-baseline":
             skip_baseline = True
-    out = os.path.join(VERIF, "seeded", pid + name)
+    out = os.path.join(VERIF, "benign" if benign else "seeded", pid + name)
     os.makedirs(out, exist_ok=True)
     so = os.path.join(wt, "seed_out")
     meta = {"property": pid, "agent_worktree": wt, "ran": []}
@@ -84,7 +88,7 @@ def main():
 
     # ---- 2. demonstration in the agent's worktree
     demo = os.path.join(so, "demo.sh")
-    if os.path.exists(demo):
+    if os.path.exists(demo) and not benign:
         # (git stash is shared between worktrees: revert / re-apply with the patch instead)
         rc1, o1 = sh("bash seed_out/demo.sh", cwd=wt, timeout=1800)
         pf = os.path.join(out, "patch.diff")
@@ -112,7 +116,7 @@ def main():
             rc, o = sh("./vcheck %s --tier %s --no-evidence" % (c, tier), cwd=VERIF, timeout=7200)
             viol = re.findall(r"^VIOLATION property=\S+ replay=(\S+)", o, re.M)
             keys = re.findall(r"violation key=([^:]+):\s*(.*)", o)
-            res[c] = {"exit": rc, "detected": rc == 1 and bool(viol), "violations": [{"key": k, "message": m[:300]} for k, m in keys[:4]], "wall_s": round(time.time() - t0, 1)}
+            res[c] = {"exit": rc, "detected": rc == 1 and bool(viol), "silent": rc == 0 and not viol, "tail": "" if rc == 0 else o[-1500:], "violations": [{"key": k, "message": m[:300]} for k, m in keys[:4]], "wall_s": round(time.time() - t0, 1)}
             meta["ran"].append("/repo + patch: ./vcheck %s --tier %s -> exit %d, %d VIOLATION line(s)" % (c, tier, rc, len(viol)))
             # keep one replay as documentation of the detection
             if viol and os.path.exists(viol[0]):
